@@ -253,4 +253,7 @@ var spec = run.Spec[Case]{ID: "C05", Name: "wkt", Gen: genCase, Prop: prop, Clas
 
 func TestPropWKT(t *testing.T) { run.Generated(t, spec) }
 func TestRegress(t *testing.T) { run.Regress(t, spec) }
-func TestReplay(t *testing.T)  { run.ReplayOne(t, spec) }
+func TestReplay(t *testing.T) {
+	run.ReplayOne(t, spec)
+	run.ReplayOne(t, eSpec)
+}
